@@ -1,6 +1,7 @@
 package harness
 
 import (
+	"strings"
 	"bytes"
 	"errors"
 	"fmt"
@@ -110,6 +111,19 @@ func runC02(env *Env, tier string) {
 		}
 		env.OnCleanup(func() { s.E.SF.Fail = nil })
 	}
+	if ch.Chance("sendfromcallback", 1, 4) {
+		// the application answers administrative messages from inside the callback (on the session's
+		// goroutine): the message is numbered and queued while the session is in the middle of handling
+		// the message it answers
+		cbN := 0
+		s.E.App.OnCall = func(ac AppCall) {
+			if ac.Kind == "FromAdmin" && (ac.Type == "A" || ac.Type == "1") && s.E.App.LoggedOn() {
+				cbN++
+				env.Stat("probe_send_from_callback")
+				s.E.Send("D", AppBody(fmt.Sprintf("cb%d", cbN)))
+			}
+		}
+	}
 	// ---- interleaving mode on ----
 	sched := simsync.NewScheduler()
 	sched.AutoSites["session.go:run"] = "session"
@@ -181,7 +195,7 @@ func runC02(env *Env, tier string) {
 	}
 	var stims []stim
 	for i := 0; i < nstim; i++ {
-		st := stim{kind: ch.Weighted("stim", []int{6, 4, 8, 4, 4, 1})}
+		st := stim{kind: ch.Weighted("stim", []int{6, 4, 8, 4, 4, 1, 2})}
 		if st.kind == 2 {
 			st.a = 1 + ch.Choose("rrb", histEnd+2)
 			st.b = []int{0, st.a + ch.Choose("rrlen", 4)}[ch.Choose("rre", 2)]
@@ -371,6 +385,27 @@ func runC02(env *Env, tier string) {
 			b, _ := p.Build("D", AppBody(p.NextID()), MsgOpt{})
 			p.EP.Feed(b)
 			env.Rec("peer>:stim", "app", "", true)
+		case 6: // a Logon inside the session (in sequence, no reset): an acceptor answers it with a Logon of its own
+			engineLoggingOut := false
+			if all := s.CL.All(); len(all) > 0 {
+				ws, _ := all[len(all)-1].Snapshot()
+				for _, w := range ws {
+					if w.Msg.Type() == "5" {
+						engineLoggingOut = true
+					}
+				}
+			}
+			if c.ResetOnLogon || engineLoggingOut {
+				// (a Logon that resets, or one arriving after the engine's Logout, is not this check's subject)
+				b, _ := p.Build("0", nil, MsgOpt{})
+				p.EP.Feed(b)
+				env.Rec("peer>:stim", "heartbeat", "", true)
+				break
+			}
+			b, _ := p.Build("A", p.LogonBody(c.HeartBtInt, false), MsgOpt{})
+			p.EP.Feed(b)
+			env.Rec("peer>:stim", "logon-in-session", "", true)
+			env.Stat("probe_logon_inside_session_during_sends")
 		case 5: // the peer logs out: the engine answers with its Logout and ends the connection while senders are active
 			b, _ := p.Build("5", nil, MsgOpt{})
 			p.EP.Feed(b)
@@ -650,15 +685,31 @@ func judgeC02(env *Env, s *Sut, c EngineCfg, ops []c02op, startN int, rrNs []int
 		lastLogon, loggedOut := startN, logonRace // (the logon under the scheduler may never complete)
 		for _, ac := range s.E.App.Snapshot() {
 			if ac.N > startN && ac.Kind == "OnLogon" {
-				lastLogon, loggedOut = ac.N, false
+				if loggedOut || lastLogon == startN {
+					// (a second logon notification without a logout in between - a Logon inside the
+					// session - does not begin a new logged-on period)
+					lastLogon = ac.N
+				}
+				loggedOut = false
 			}
 			if ac.N > startN && ac.Kind == "OnLogout" {
 				loggedOut = true
 			}
 		}
+		// once the engine has sent its Logout the session is logging out, not logged on: what is numbered
+		// after that (a Heartbeat answering a TestRequest, say) need not be transmitted
+		logoutSentAt := int(^uint(0) >> 1)
+		for _, cr := range s.CL.All() {
+			ws, _ := cr.Snapshot()
+			for _, w := range ws {
+				if w.OK && w.N > lastLogon && w.Msg.Type() == "5" && !w.Msg.PossDup() && w.N < logoutSentAt {
+					logoutSentAt = w.N
+				}
+			}
+		}
 		if !loggedOut {
 			for _, x := range saves {
-				if x.n > lastLogon && !onWire[key{x.epoch, x.num}] {
+				if x.n > lastLogon && x.n < logoutSentAt && !onWire[key{x.epoch, x.num}] {
 					env.Violate("C02/never-transmitted", "number %d was assigned (task %s) but never reached the wire although the session stayed logged on", x.num, x.task)
 					return
 				}
@@ -721,7 +772,8 @@ func judgeC02(env *Env, s *Sut, c EngineCfg, ops []c02op, startN int, rrNs []int
 	// engine-generated first-time messages are operations of the session client
 	cid := len(ops)
 	for _, ac := range apps {
-		if ac.Kind == "ToAdmin" && !ac.PossDup && ac.N > startN && ac.Type != "4" {
+		fromCallback := ac.Kind == "ToApp" && strings.HasPrefix(ac.ID, "cb") // sent by the application from inside a callback
+		if (ac.Kind == "ToAdmin" || fromCallback) && !ac.PossDup && ac.N > startN && ac.Type != "4" {
 			if x, ok := savedAt[key{epochAt(ac.N), ac.Seq}]; ok && x.n > ac.N {
 				hist = append(hist, porcupine.Operation{ClientId: cid, Input: 0, Call: int64(ac.N), Output: ac.Seq, Return: int64(x.n)})
 			}
